@@ -14,3 +14,4 @@ from . import diagram  # noqa: F401
 from . import pickling  # noqa: F401
 from . import declaration  # noqa: F401
 from . import dispatcher  # noqa: F401
+from . import adapters  # noqa: F401
